@@ -9,6 +9,6 @@ PLAN = {
 CLAIM = {
     "engine": "rapidcheck-tape",
     "technique": "property-based testing of call histories (stateful): generated models with none/unique/duplicated/auto-shaped ids, histories of annotator calls interleaved with API edits, judged against a reference id index (independent traversal) and, for the printer, ids collected from the document with libxml2",
-    "text": "Random exploration (tens of thousands of model x history pairs per run; every assign entry point, every CellmlElementType, every assignId overload, 14 edit kinds) of identifier assignment. Each assign call is bracketed by two independent traversals of the model: completeness, preservation, freshness against the pre-call traversal, distinctness, item(id) identity, and ids()/duplicateIds()/itemCount()/items() against the traversal; printModel(model, true) is checked on the document text. Finds stale-cache and index defects; cannot show absence.",
-    "note": "Trusts the harness traversal (public getters only) and libxml2. Connection ids are kept consistent over the mappings of one connection because the library getter is iteration-order dependent otherwise; MathML element ids are outside the check.",
+    "text": "Random exploration (tens of thousands of model x history pairs per run; every assign entry point, every CellmlElementType, every assignId overload incl. pairs that are no item, 18 edit kinds incl. partially labelled connections and ids inside MathML) of identifier assignment. Each assign call is bracketed by two independent traversals of the model: completeness, preservation, freshness against the pre-call traversal, distinctness, item(id) identity, and ids()/duplicateIds()/itemCount()/items() against the traversal; printModel(model, true) is checked on the document text. Finds stale-cache and index defects; cannot show absence.",
+    "note": "Trusts the harness traversal (public getters only) and libxml2. Connections whose variable pairs hold two different non-empty connection ids are discarded as ambiguous; MathML ids are reserved ids (must not be repeated or changed) but are not expected from the lookups.",
 }
